@@ -83,7 +83,7 @@ def run_one(bdir, g, net, idx, wd):
         lines, ok = eng.read_until(lambda l: l.startswith("bestmove"), 2.5)
         if not ok:
             eng.send("stop")
-            lines2, ok = eng.read_until(lambda l: l.startswith("bestmove"), 60)
+            lines2, ok = eng.read_until(lambda l: l.startswith("bestmove"), 300)
         rc = eng.quit()
         return tp, ok, rc
     finally:
